@@ -210,3 +210,16 @@ SPECS['C09'] = {
     'thorough': [J('c09', 'fast', srcs=TLSSRC), J('c09', 'asan', srcs=TLSSRC)],
     'budget': {'quick': 120, 'thorough': 600},
 }
+
+SPECS['C18'] = {
+    'level': 'fault_enumeration',
+    'technique': 'exhaustive entropy-fault enumeration: for every randomised operation and every handshake role, one implementation run per entropy-draw index with that draw failing, plus stream-pair (A/A, A/B) and long same-stream sequence runs, under the scripted getentropy shim',
+    'claim': 'For 22 randomised API operations and the 12 handshake roles (3 protocols x {server-auth, mutual} x {client, server}): with the draw at every index failing the operation reports failure (the handshake endpoint does not complete and emits no further handshake / CCS / application record); equal streams give byte-identical output and different streams different ephemeral values; 200 (thorough 1000) repeated signatures / encryptions in one stream never reuse a nonce.',
+    'trusted': 'libc getentropy is the only entropy gateway (rand_bytes); per-thread scripted streams; for handshakes the record log of vnet',
+    'rule': 'ops: {sm2 keygen, sign, do_sign, sign_fixlen, streaming sign, encrypt, encrypt_fixlen, streaming encrypt, PKCS#8 encrypt, certificate / request / CRL signing, CMS sign / envelop, TLS CBC record IV, SM9 master keygen x2, sign, encrypt, KEM, exchange step 1A / 1B} x draw index 0..N-1 (N measured per operation) + A/A + A/B; sequences: 4 repeated-operation runs; handshakes: 6 configurations x 2 roles x every draw index (35-70 draws per role) + A/A + A/B transcripts. distinct = (operation or role, failing draw index).',
+    'bound': {'quick': '1 failing draw per run; sequences of 200', 'thorough': 'sequences of 1000'},
+    'assumptions': ['a failing draw is modelled as getentropy returning -1 once; partial reads do not exist for getentropy'],
+    'quick': [J('c18', 'fast', srcs=TLSSRC)],
+    'thorough': [J('c18', 'fast', srcs=TLSSRC), J('c18', 'asan', srcs=TLSSRC, deadline=900)],
+    'budget': {'quick': 170, 'thorough': 1500},
+}
